@@ -44,13 +44,33 @@ def run_check(tier, seed):
                 s.th = Thm(c02.A, c02.A)
             if s.rule == '':
                 s.rule, s.th = 'sorry', Thm(c02.A, c02.A)
+        op = r.choice(['add', 'add', 'remove', 'set', 'replace', 'replace'])
+        planted = None
+        if op == 'replace' and r.random() < 0.6:
+            # plant a citation of an earlier line from INSIDE a later block (any depth), so that the
+            # replacement has to reach into nested proofs
+            flat = c02.all_shapes(shapes)
+            blocks = [b for b in flat if b.rule == 'subproof' and b.sub]
+            r.shuffle(blocks)
+            for b in blocks:
+                lvl = len(b.id)
+                earlier = [x for x in flat if len(x.id) == lvl and x.id[:lvl - 1] == b.id[:lvl - 1] and 0 < x.id[lvl - 1] < b.id[lvl - 1]]
+                inner = [x for x in c02.all_shapes(b.sub) if x.rule not in ('', 'subproof', 'sorry')]
+                if earlier and inner:
+                    tgt = r.choice(earlier)
+                    y = r.choice(inner)
+                    y.prevs = list(y.prevs) + [tgt.id]
+                    planted = tuple(tgt.id)
+                    break
         st = method.ProofState()
         st.prf = c02.build_proof(shapes)
         ok0, _ = structure_ok(st.prf)
         before = g_proof_shape(st.prf)
         positions = [pos for pos, _ in all_items(st.prf)]
-        op = r.choice(['add', 'add', 'remove', 'set', 'replace'])
         pos = r.choice(positions)
+        if planted is not None and planted in positions:
+            pos = planted
+            run.stat('struct_op:replace-with-nested-citation')
         try:
             if op == 'add':
                 k = r.choice([1, 1, 2, 3])
@@ -173,6 +193,7 @@ def run_check(tier, seed):
     # ---------------- (C) goals worked out of order, every state copied and the copy (or the original) edited at every gap
     n_ooo = out_of_order_family(run, r, 12 if tier == 'quick' else 150)
     run.cov['search_out_of_order'] = n_ooo
+    run.cov['search_cut_use_close'] = cut_use_close_family(run, r, 6 if tier == 'quick' else 60)
     run.sample(dict(theorem='%s.%s' % thms[0][:1] + (thms[0][1]['name'],) if False else thms[0][1]['name'], steps=thms[0][1]['steps'][:2]))
     run.cov['rule'] = ('structural ops on random well-numbered proofs (3-6 lines, nested blocks); replay of the recorded steps of library '
                        'theorems (%s) with invariants after every step, each step first on a copy, 30%% repeated; non-trivial = every case'
@@ -261,6 +282,47 @@ def out_of_order_family(run, r, n_goals):
                         return stats
                     check_state(run, keep, goal, name, 'copy kept aside while %s was applied at %s' % (edit['method_name'], gid))
     return stats
+
+
+def cut_use_close_family(run, r, n):
+    """An intermediate fact is cut in, used inside a block opened later, and only then closed by a forward step that
+    merges the cut gap with the derived line (citations of the merged line have to be redirected at every depth);
+    the same three steps in the other order as control.  Invariants after every step."""
+    from kernel.type import BoolType, TVar, TFun
+    done = 0
+    for _ in range(n):
+        X, Y = r.sample(['A', 'B', 'C'], 2)
+        which = r.choice([0, 1])
+        Z, thm_name = ((X, 'conjD1'), (Y, 'conjD2'))[which]
+        inner = r.choice(["(!x::'a. P x --> %s)" % Z, "(D --> %s)" % Z, "(!x::'a. !y::'a. P x --> %s)" % Z])
+        text = '%s & %s --> %s' % (X, Y, inner)
+        cut = {'method_name': 'cut', 'goal_id': '1', 'goal': Z}
+        intro = {'method_name': 'introduction', 'goal_id': '2', 'names': 'x, y' if '!y' in inner else 'x'}
+        fwd = {'method_name': 'apply_forward_step', 'goal_id': '1', 'fact_ids': ['0'], 'theorem': thm_name}
+        for label, steps in (('cut, use, close', [cut, intro, fwd]), ('cut, close, use', [cut, fwd, intro])):
+            try:
+                context.set_context('logic_base', vars={'A': BoolType, 'B': BoolType, 'C': BoolType, 'D': BoolType, 'P': TFun(TVar('a'), BoolType)})
+                goal_t = parser.parse_term(text)
+                state = server.parse_init_state(goal_t)
+                goal = Thm(goal_t)
+            except RecursionError:
+                raise
+            except Exception as e:
+                run.stat('cuc_setup_exc:' + type(e).__name__)
+                continue
+            name = 'generated.%s' % text
+            for k, step in enumerate(steps):
+                try:
+                    method.apply_method(state, step)
+                except RecursionError:
+                    raise
+                except Exception as e:
+                    run.stat('cuc_step_exc:%s:%s' % (step['method_name'], type(e).__name__))
+                    break
+                check_state(run, state, goal, name, '%s: step %d %s' % (label, k, step['method_name']))
+                run.count(('cuc', text, label, k), nontrivial=True)
+                done += 1
+    return dict(goals=n, steps=done)
 
 
 def check_state(run, state, goal, name, where, structural_only=False):
